@@ -21,10 +21,10 @@ var SrvFields = []Field{
 	{"proto", []string{"nil", "all", "b", "none", "custom-all", "custom-b", "sel-equal-b", "sel-slice-b", "sel-bigslice-b"}},
 	{"ext", []string{"nil", "all", "none", "custom-all", "negotiate-echo", "negotiate-decline", "negotiate-error", "negotiate-pmd", "negotiate-error-x", "negotiate-error-y", "custom-alias"}},
 	{"header", []string{"nil", "one", "bytes", "http", "func-long", "func-long-fails"}},
-	{"onrequest", []string{"nil", "ok", "err", "reject403", "err-list", "err-bytes"}},
+	{"onrequest", []string{"nil", "ok", "err", "reject403", "err-list", "err-bytes", "reject403-live"}},
 	{"onhost", []string{"nil", "ok", "err", "reject403", "err-list", "err-bytes"}},
 	{"onheader", []string{"nil", "ok", "err", "reject403", "err-list", "err-bytes"}},
-	{"onbefore", []string{"nil", "ok", "err", "reject403", "ok-header", "err-list", "err-bytes"}},
+	{"onbefore", []string{"nil", "ok", "err", "reject403", "ok-header", "err-list", "err-bytes", "reject403-live"}},
 }
 
 type SrvCfg []int
@@ -181,6 +181,18 @@ func (c SrvCfg) Upgrader() ws.Upgrader {
 			return n, nil
 		})
 	}
+	// a rejection built once, when the upgrader is set up, around an http.Header that the callback
+	// fills in at the moment it refuses (what was refused, and when): the response carries the
+	// header as it is then
+	liveHdr := http.Header{"X-Reject": []string{"yes"}}
+	liveRej := ws.RejectConnectionError(ws.RejectionStatus(403), ws.RejectionReason("forbidden by callback"), ws.RejectionHeader(ws.HandshakeHeaderHTTP(liveHdr)))
+	cbErr := func(kind string) error {
+		if kind == "reject403-live" {
+			liveHdr.Set("X-Refused", "now")
+			return liveRej
+		}
+		return cbErr(kind)
+	}
 	if k := c.V("onrequest"); k != "nil" {
 		u.OnRequest = func([]byte) error { return cbErr(k) }
 	}
@@ -274,7 +286,7 @@ func (c SrvCfg) Expect(r Req) SrvExpect {
 		switch kind {
 		case "err", "err-list", "err-bytes":
 			e.CallbackStatuses[500] = true
-		case "reject403":
+		case "reject403", "reject403-live":
 			e.CallbackStatuses[403] = true
 		}
 	}
@@ -584,6 +596,20 @@ func JudgeServer(r Req, c SrvCfg, out []byte, hsk ws.Handshake, err error, flavo
 	if st == 403 && c.V("header") != "func-long-fails" {
 		if g := h.Get("X-Reject"); len(g) != 1 {
 			return "reject-header-missing:" + cls, ""
+		}
+		live, other := 0, 0
+		for _, f := range []string{"onrequest", "onhost", "onheader", "onbefore"} {
+			switch c.V(f) {
+			case "reject403-live":
+				live++
+			case "reject403":
+				other++
+			}
+		}
+		if live > 0 && other == 0 {
+			if g := h.Get("X-Refused"); len(g) != 1 || g[0] != "now" {
+				return "reject-header-not-as-the-callback-left-it:" + cls, fmt.Sprintf("X-Refused: %v in %q", g, head(out))
+			}
 		}
 	}
 	if c.V("header") != "nil" {
